@@ -153,12 +153,13 @@ class H1(Case):
             while pb.compute_step():
                 pass
             pb.update_process_tensor()
-            # reference content = what the writer itself holds before closing
+            # reference content = the MPO tensors the writer itself holds before closing, and the
+            # caps that belong to them (computed by the in-memory class's own compute_caps, so
+            # "complete" also means: every cap is there and is the right one)
             mem = ptm.SimpleProcessTensor(hilbert_space_dimension=d, dt=0.1, name="pt-tempo")
             for k in range(N):
                 mem.set_mpo_tensor(k, fpt.get_mpo_tensor(k, transformed=False))
-            for k in range(N + 1):
-                mem.set_cap_tensor(k, fpt.get_cap_tensor(k))
+            mem.compute_caps()
             state["pb"], state["mem"] = pb, mem
             fpt.close()
 
